@@ -384,6 +384,15 @@ class Module:
             raise AnchorVanished(f"module-level name {self.short}:{name} not found in {self.relpath}")
         return found
 
+    def module_const(self, name: str) -> Optional[ast.AST]:
+        """value of a module-level name that is stored exactly once in the whole module (so it is a constant), else None"""
+        if self.global_assign_count(name) != 1:
+            return None
+        try:
+            return self.global_assign(name)
+        except AnchorVanished:
+            return None
+
     def global_assign_count(self, name: str) -> int:
         c = 0
         for n in ast.walk(self.tree):
